@@ -650,6 +650,12 @@ impl Query {
         if !self.order_extra.is_empty() {
             f.push("order-by-non-selected");
         }
+        if self.from.iter().any(|x| matches!(&x.source, Source::Derived(q) if !q.order_by.is_empty())) {
+            f.push("derived-ordered");
+        }
+        if self.from.iter().any(|x| matches!(&x.source, Source::Derived(q) if q.order_by.len() >= 2)) && self.order_by.len() >= 2 {
+            f.push("order-over-derived-ordered-on-2-keys");
+        }
         if self.limit.is_some() || self.offset.is_some() {
             f.push("limit-offset");
         }
@@ -1311,11 +1317,27 @@ impl<'a, 'b> Gen<'a, 'b> {
                         }
                         if ty == Ty::Int {
                             let l = self.literal(Ty::Int);
-                            let op = [">", "<", "=", ">="][self.t.pick(4)];
-                            having = Some(E::Bin(op.into(), Box::new(a), Box::new(l)));
+                            if self.t.chance(1, 3) {
+                                // the aggregate as the tested expression of IN
+                                let l2 = self.literal(Ty::Int);
+                                having = Some(E::InList(Box::new(a), vec![l, l2], self.t.chance(1, 4)));
+                            } else {
+                                let op = [">", "<", "=", ">="][self.t.pick(4)];
+                                having = Some(E::Bin(op.into(), Box::new(a), Box::new(l)));
+                            }
                         }
                     }
                 }
+            }
+        }
+        if mode != 0 && depth == 0 && self.t.chance(1, 10) {
+            // a select item that tests an aggregate with IN (its only occurrence in the block); not
+            // in derived tables: an item over an aggregate referenced from outside is the open
+            // finding F-C16-named-agg-expr-stale-binding
+            let (a, ty) = self.agg(&scope, depth);
+            if ty == Ty::Int && !select.iter().any(|(e, _)| *e == a) {
+                let l = vec![self.literal(Ty::Int), self.literal(Ty::Int)];
+                select.push((E::InList(Box::new(a), l, false), Ty::Bool));
             }
         }
         if self.cfg.ungrouped_items && mode != 0 && self.t.chance(1, 8) {
@@ -1341,7 +1363,30 @@ impl<'a, 'b> Gen<'a, 'b> {
                     }
                 }
             }
-            if self.cfg.order_non_selected && mode == 0 && !distinct && self.t.chance(1, 5) {
+            // over a derived table that is ordered on several keys: order by the same columns in
+            // another sequence (the inner order must not count as the outer one)
+            let inner_keys: Vec<(E, Ty)> = from
+                .iter()
+                .filter(|f| !matches!(f.join, Some((JoinKind::Semi | JoinKind::Anti, _))))
+                .find_map(|f| match &f.source {
+                    Source::Derived(q) if q.order_by.len() >= 2 => Some(q.order_by.iter().map(|(i, _)| (E::Col(f.alias.clone(), format!("x{i}"), q.select[*i].1), q.select[*i].1)).collect()),
+                    _ => None,
+                })
+                .unwrap_or_default();
+            if self.cfg.order_non_selected && mode == 0 && !distinct && !inner_keys.is_empty() && self.t.chance(3, 4) {
+                // (the keys are selected, so that the order is visible in the result)
+                order_by.clear();
+                for (e, ty) in inner_keys.into_iter().rev() {
+                    let i = match select.iter().position(|(s, _)| *s == e) {
+                        Some(i) => i,
+                        None => {
+                            select.push((e, ty));
+                            select.len() - 1
+                        }
+                    };
+                    order_by.push((i, self.t.chance(1, 6)));
+                }
+            } else if self.cfg.order_non_selected && mode == 0 && !distinct && self.t.chance(1, 5) {
                 // a key that is not in the select list: a column of the scope (or an expression)
                 let c = scope[self.t.pick(scope.len())].clone();
                 let e = if self.t.chance(1, 4) && c.ty == Ty::Int {
@@ -1509,10 +1554,17 @@ impl<'a, 'b> Gen<'a, 'b> {
                 q.order_extra.clear();
             }
         }
-        if self.cfg.derived_order && (self.cfg.distinct_complex || !q.distinct) && self.t.chance(1, 4) {
+        if self.cfg.derived_order && (self.cfg.distinct_complex || !q.distinct) && self.t.chance(2, 5) {
             let i = self.t.pick(q.select.len());
             if self.cfg.distinct_complex || matches!(q.select[i].0, E::Col(..)) {
                 q.order_by.push((i, self.t.chance(1, 4)));
+                // a second key two times in three (where there is another item)
+                if q.select.len() >= 2 && self.t.chance(2, 3) {
+                    let j = (i + 1 + self.t.pick(q.select.len() - 1)) % q.select.len();
+                    if self.cfg.distinct_complex || matches!(q.select[j].0, E::Col(..)) {
+                        q.order_by.push((j, self.t.chance(1, 6)));
+                    }
+                }
             }
         }
         q
@@ -1565,6 +1617,13 @@ pub fn key_range_query(t: &mut Tape, td: &TableDef) -> Option<Query> {
             Some(i) => order_by.push((i, desc)),
             None => order_extra.push((okey.clone(), okey_ty, desc)),
         }
+        // a second key one time in three (with repeated key values it decides the order)
+        if t.chance(1, 3) {
+            let c2 = &td.cols[t.pick(td.cols.len())];
+            if col(c2) != okey {
+                order_extra.push((col(c2), c2.ty, t.chance(1, 2)));
+            }
+        }
         if t.chance(1, 3) {
             limit = Some([1u64, 2, 3, 5][t.pick(4)]);
         }
@@ -1583,5 +1642,63 @@ pub fn key_range_query(t: &mut Tape, td: &TableDef) -> Option<Query> {
         order_extra,
         limit,
         offset,
+    })
+}
+
+/// A query that sorts the output of an already sorted derived table again: the inner ORDER BY has
+/// two keys (with or without LIMIT), the outer one uses the same columns in the same sequence
+/// (control), the reversed sequence, with one direction flipped, only the second key, or the keys
+/// plus another column. Whether the outer sort may be dropped, and whether an aggregation or a
+/// join above may rely on the inner order, is decided by the optimizer's order analysis.
+pub fn reorder_query(t: &mut Tape, td: &TableDef) -> Option<Query> {
+    if td.cols.len() < 2 {
+        return None;
+    }
+    let n = td.cols.len();
+    let inner_alias = "t1".to_string();
+    // inner select: all columns, in table order
+    let inner_sel: Vec<(E, Ty)> = td.cols.iter().map(|c| (E::Col(inner_alias.clone(), c.name.clone(), c.ty), c.ty)).collect();
+    let k1 = t.pick(n);
+    let k2 = (k1 + 1 + t.pick(n - 1)) % n;
+    let (d1, d2) = (t.chance(1, 5), t.chance(1, 5));
+    let inner = Query {
+        distinct: false,
+        select: inner_sel,
+        from: vec![FromItem { source: Source::Table(td.name.clone()), alias: inner_alias, join: None }],
+        where_: None,
+        group_by: vec![],
+        having: None,
+        order_by: vec![(k1, d1), (k2, d2)],
+        order_extra: vec![],
+        limit: if t.chance(1, 3) { Some([3u64, 6, 100][t.pick(3)]) } else { None },
+        offset: None,
+    };
+    let alias = "d1".to_string();
+    let select: Vec<(E, Ty)> = td.cols.iter().enumerate().map(|(i, c)| (E::Col(alias.clone(), format!("x{i}"), c.ty), c.ty)).collect();
+    let order_by = match t.pick(6) {
+        0 => vec![(k1, d1), (k2, d2)],
+        1 | 2 => vec![(k2, d2), (k1, d1)],
+        3 => vec![(k1, d1), (k2, !d2)],
+        4 => vec![(k2, d2)],
+        _ => {
+            let k3 = t.pick(n);
+            let mut v = vec![(k1, d1), (k2, d2)];
+            if k3 != k1 && k3 != k2 {
+                v.push((k3, t.chance(1, 2)));
+            }
+            v
+        }
+    };
+    Some(Query {
+        distinct: false,
+        select,
+        from: vec![FromItem { source: Source::Derived(Box::new(inner)), alias, join: None }],
+        where_: None,
+        group_by: vec![],
+        having: None,
+        order_by,
+        order_extra: vec![],
+        limit: if t.chance(1, 4) { Some([1u64, 2, 5][t.pick(3)]) } else { None },
+        offset: None,
     })
 }
